@@ -19,6 +19,7 @@ Proof.
   - discriminate.
   - intros H; inversion H; auto.
   - intros H; inversion H; subst. right. split; eauto.
+  - discriminate.
 Qed.
 
 (* the first code on which the oracle does not answer ChkOk decides *)
@@ -27,7 +28,7 @@ Lemma check_codes_first chk pre c post :
   check_codes chk (pre ++ c :: post)%list =
   match chk c with
   | ChkOk => check_codes chk post
-  | ChkSyntaxError | ChkSyntaxWarning => VProblem
+  | ChkSyntaxError | ChkCaughtExn | ChkSyntaxWarning => VProblem
   | ChkOtherWarning _ => VRaise ParserError
   | ChkOtherExn => VRaise OtherError
   end.
@@ -210,4 +211,64 @@ Proof.
   exists ss. split; [exact Hp|].
   clear - Hf. induction (codes_of ss) as [|c r IH]; [intros c []|].
   cbn in Hf. destruct (chk c) eqn:Ec; try discriminate. intros x [<-|Hx]; [exact Ec|apply IH; assumption].
+Qed.
+
+(* ---------- 74fa5fb: every failure of compile() that the check catches is a problem statement, hence a ParserError ---------- *)
+(* SyntaxError; ValueError / RecursionError / MemoryError / OverflowError (ChkCaughtExn); exactly one SyntaxWarning *)
+Definition compile_failed (r : chk_res) : bool :=
+  match r with ChkSyntaxError | ChkCaughtExn | ChkSyntaxWarning => true | _ => false end.
+
+Lemma check_codes_problem chk before c after :
+  (forall x, In x before -> chk x = ChkOk) -> compile_failed (chk c) = true ->
+  check_codes chk (before ++ c :: after)%list = VProblem.
+Proof.
+  intros Hb Hc. rewrite (check_codes_first chk before c after Hb). destruct (chk c); try discriminate; reflexivity.
+Qed.
+(* the check never turns such an outcome into anything but a problem statement: no foreign exception, no acceptance *)
+Lemma check_codes_never_raises_on_failure chk codes :
+  (forall c, In c codes -> chk c = ChkOk \/ compile_failed (chk c) = true) ->
+  check_codes chk codes = VFine \/ check_codes chk codes = VProblem.
+Proof.
+  induction codes as [|c r IH]; intros H; [left; reflexivity|]. cbn [check_codes].
+  destruct (H c (or_introl eq_refl)) as [E|E].
+  - rewrite E. apply IH. intros x Hx. apply H. right. exact Hx.
+  - destruct (chk c); try discriminate; right; reflexivity.
+Qed.
+
+Lemma parse_statements_passes chk stmts : forall acc pb,
+  (forall x, In x stmts -> passes chk x) ->
+  exists by_eq pb', parse_statements chk true stmts acc pb = POk (by_eq, pb') /\ (pb = true -> pb' = true) /\
+    ((exists x syms, In x stmts /\ parse_equation_M x = POk syms /\ check_codes chk (codes_of syms) = VProblem) -> pb' = true).
+Proof.
+  induction stmts as [|st rest IH]; intros acc pb H; cbn [parse_statements].
+  - exists (rev acc), pb. split; [reflexivity|]. split; [auto|]. intros (x & _ & [] & _).
+  - destruct (H st (or_introl eq_refl)) as (syms & Hp & Hc). rewrite Hp.
+    assert (Hr : forall x, In x rest -> passes chk x) by (intros x Hx; apply H; right; exact Hx).
+    destruct Hc as [Hc|Hc]; rewrite Hc.
+    + destruct (IH (syms :: acc) pb Hr) as (b & p & E & M1 & M2). exists b, p. split; [exact E|]. split; [exact M1|].
+      intros (x & sx & [<-|Hx] & Hpx & Hcx); [rewrite Hp in Hpx; inversion Hpx; subst; congruence|apply M2; eauto].
+    + destruct (IH (syms :: acc) true Hr) as (b & p & E & M1 & M2). exists b, p. split; [exact E|].
+      split; [intros _; apply M1; reflexivity|intros _; apply M1; reflexivity].
+Qed.
+
+(* For every script whose statements all parse and whose codes the oracle either accepts or fails to compile (in any of
+   the five caught ways, or with one SyntaxWarning): one such failure anywhere makes the whole model a ParserError. *)
+Theorem compile_failure_is_parser_error chk s st syms :
+  snd (split_M s) = None ->
+  (forall x, In x (fst (split_M s)) -> passes chk x) ->
+  In st (fst (split_M s)) -> parse_equation_M st = POk syms -> check_codes chk (codes_of syms) = VProblem ->
+  parse_model_M chk true s = PErr ParserError.
+Proof.
+  intros Hs Hp Hin Hst Hc. unfold parse_model_M. destruct (split_M s) as [stmts serr]. cbn [fst snd] in *. subst serr.
+  destruct (parse_statements_passes chk stmts [] false Hp) as (b & p & E & _ & M). rewrite E.
+  rewrite (M (ex_intro _ st (ex_intro _ syms (conj Hin (conj Hst Hc))))). reflexivity.
+Qed.
+
+(* with an oracle that only ever answers "ok" or one of the caught failures, parse_model raises nothing but its own errors
+   and the ValueError of the '='-less statement: the syntax check itself contributes no foreign exception *)
+Theorem caught_failures_never_foreign chk cs s e :
+  (forall c, chk c = ChkOk \/ compile_failed (chk c) = true) -> parse_model_M chk cs s = PErr e -> e <> OtherError.
+Proof.
+  intros H E ->. destruct (other_exn_only_from_oracle chk cs s E) as (_ & c & Hc).
+  destruct (H c) as [A|A]; rewrite Hc in A; discriminate.
 Qed.
